@@ -10,7 +10,9 @@ R17.next   succ*/pred* = isfinite(x) ? nextafter(x, +-inf) : x ; finitef/finited
 R17.col    Vec3 / Color4 colour overloads: same value graph on r,g,b, alpha passes through; integer element
            types are scaled by exactly numeric_limits<T>::max() in double; packed channel slices
 R17.roots  degenerate leading coefficients delegate to the lower-degree solver; quadratic uses the stable q form
-           solveNormalizedCubic on the double-root cell D = 0, p != 0: n = 2 and {simple root, double root}, both signs of q
+           solveNormalizedCubic, cell D > 0: n = 1 and the value is a root (cube-root atom W^3 = sgn*(-q/2 + sqrt D));
+           cell D < 0 (p = -3 rho^2, q = -2 rho^3 cos 3phi): n = 3 and the values have the elementary symmetric functions (0, p, -q);
+           double-root cell D = 0, p != 0: n = 2 and {simple root, double root}, both signs of q
            (complex callees replaced by their C99 / libstdc++ definitions on that cell)
 """
 from fractions import Fraction
@@ -437,6 +439,7 @@ def main(rep, ws, tier):
     check_colour(rep, ws, tier)
     check_roots(rep, ws)
     check_cubic_double_root(rep, ws)
+    check_cubic_generic(rep, ws)
     rep.floor('utility obligations', len(rep.obs), 30)
     rep.assumptions += ['NaN-free operands for the order rules', 'exact real arithmetic for lerp identities', 'no intermediate negation overflows in divs/mods/divp/modp (the property\'s proviso)', '|x| < 2^31 for floor/ceil/trunc (int(x) defined)']
     rep.undecided_clauses += ['accuracy of the root solvers', 'rgb<->hsv round trip and packed round trip (run-time arithmetic)']
@@ -703,6 +706,183 @@ def check_cubic_double_root(rep, ws):
                    'on the cell D = 0, %s the roots returned are {%s, %s}; the cubic (x+r/3 %s 2rho)(x+r/3 %s rho)^2 has the simple root %s and the double root %s' % (cell, P.show_rat(x0, ctx)[:60], P.show_rat(x1, ctx)[:60], '+' if sgn > 0 else '-', '-' if sgn > 0 else '+', P.show_rat(simple, ctx), P.show_rat(double_, ctx)), where)
         except (P.NotPoly, PC.Undecided, vg.Unsupported, OverflowError) as e:
             rep.ob(oid, 'R17.roots', UNDECIDED, str(e)[:300], where)
+
+class _Done(Exception):
+    pass
+
+def _complex_models(ctx, cstruct_extra=None):
+    """__divdc3 / __muldc3 as complex quotient / product (compiler-rt); returns the struct evaluator"""
+    def neg_(z): return (P.pneg(z[0]), z[1])
+    def cstruct(call):
+        a = [ctx.rat(z) for z in call.args]
+        if call.attr in ('__divdc3', '__divsc3') and len(a) == 4:
+            den = ctx.radd(ctx.rmul(a[2], a[2]), ctx.rmul(a[3], a[3]))
+            return (ctx.rdiv(ctx.radd(ctx.rmul(a[0], a[2]), ctx.rmul(a[1], a[3])), den), ctx.rdiv(ctx.radd(ctx.rmul(a[1], a[2]), neg_(ctx.rmul(a[0], a[3]))), den))
+        if call.attr in ('__muldc3', '__mulsc3') and len(a) == 4:
+            return (ctx.radd(ctx.rmul(a[0], a[2]), neg_(ctx.rmul(a[1], a[3]))), ctx.radd(ctx.rmul(a[0], a[3]), ctx.rmul(a[1], a[2])))
+        if cstruct_extra is not None:
+            r = cstruct_extra(call, a)
+            if r is not None: return r
+        raise P.NotPoly('struct-valued call %s' % call.attr)
+    return cstruct
+
+def check_cubic_generic(rep, ws):
+    """R17.roots, solveNormalizedCubic on its two generic cells.
+    D > 0 (one real root): with S = sqrt(D) and W the real cube root (W^3 = sgn * (-q/2 + S), sgn = copysign(1, .), sgn^2 = 1)
+    the value returned satisfies x^3 + r x^2 + s x + t = 0 identically, and n = 1.
+    D < 0 (three real roots): p = -3 rho^2, q = -2 rho^3 cos(3 phi), 0 < phi < pi/3; then D = -(rho^3 sin 3phi)^2,
+    csqrt(D) = i rho^3 sin 3phi, clog(...) = (3 log rho, 3 phi) and the three values returned have the elementary symmetric
+    functions (0, p, -q) after the shift by r/3, i.e. they are exactly the three roots; n = 3."""
+    where = 'src/Imath/ImathRoots.h'
+    tu = TU('c17_cubicg', header=HDR)
+    tu.add('w_nc', 'int& n, const double& r, const double& s, const double& t, double& x0, double& x1, double& x2', 'double x[3] = {0, 0, 0}; n = solveNormalizedCubic(r, s, t, x); x0 = x[0]; x1 = x[1]; x2 = x[2];')
+    try:
+        mod = ws.module(tu.name, tu.source(), opaque=())
+        S = vg.Interp(mod).run('w_nc')
+    except (build.BuildError, vg.Unsupported) as e:
+        rep.ob('solveNormalizedCubic#generic', 'R17.roots', UNDECIDED, str(e)[:300], where); return
+    r_in, s_in, t_in = (T.inp('a%d' % i, 0, 8, 'double') for i in (1, 2, 3))
+    outs = [S.out('a0', 0, 4, 'i32'), S.out('a4', 0, 8, 'double'), S.out('a5', 0, 8, 'double'), S.out('a6', 0, 8, 'double')]
+    THIRD = Fraction(1, 3); ONE_ = P.pconst(1)
+    def near(c, v): return c.op == 'const' and not isinstance(T.const_value(c), str) and abs(float(T.const_value(c)) - v) < 1e-15
+    def neg_(z): return (P.pneg(z[0]), z[1])
+    # ---------------------------------------------------------------- D > 0
+    oid = 'solveNormalizedCubic#one-real-root'
+    try:
+        ctx = P.Ctx(); ctx.cancel = True
+        R_, S_, T_ = (P.patom(ctx.key(z)) for z in (r_in, s_in, t_in))
+        p_ = P.psub(S_, P.pscale(P.ppow(R_, 2), THIRD)); q_ = P.padd(P.psub(P.pscale(P.ppow(R_, 3), Fraction(2, 27)), P.pscale(P.pmul(R_, S_), THIRD)), T_)
+        D_ = P.padd(P.ppow(P.pscale(p_, THIRD), 3), P.ppow(P.pscale(q_, Fraction(1, 2)), 2))
+        cstruct = _complex_models(ctx)
+        orig_rat = ctx._rat; orig_call = ctx.call
+        sgn_atoms = {}; cbrt_atoms = {}
+        def _rat(n):
+            if n.op == 'extractvalue' and n.args[0].op == 'call': return cstruct(n.args[0])[n.attr[0]]
+            if n.op == 'const' and near(n, 1 / 3.0): return (P.pconst(THIRD), ONE_)
+            return orig_rat(n)
+        def call(n):
+            if n.attr == 'copysign' and n.args[0].op == 'const' and T.const_value(n.args[0]) == 1:
+                a = ctx.rat(n.args[1]); key = (tuple(sorted(a[0].items())), tuple(sorted(a[1].items())))
+                k = sgn_atoms.get(key)
+                if k is None:
+                    k = ctx.key(T.inp('q#sgn%d' % len(sgn_atoms), 0, 8, 'double')); sgn_atoms[key] = k
+                    ctx.rules[k] = P.pconst(1)
+                return (P.patom(k), ONE_)
+            if n.attr == 'pow':
+                e = ctx.rat(n.args[1])
+                if not ctx.requal(e, (P.pconst(THIRD), ONE_)): raise P.NotPoly('pow with exponent %s' % P.show_rat(e, ctx)[:20])
+                a = ctx.rat(n.args[0])
+                if a[1] != ONE_: raise P.NotPoly('cube root of a quotient')
+                key = tuple(sorted(a[0].items()))
+                k = cbrt_atoms.get(key)
+                if k is None:
+                    k = ctx.key(T.inp('q#cbrt%d' % len(cbrt_atoms), 0, 8, 'double')); cbrt_atoms[key] = k
+                    ctx.rules3[k] = a[0]; ctx.positive.add(k)
+                return (P.patom(k), ONE_)
+            return orig_call(n)
+        ctx._rat = _rat; ctx.call = call
+        def premise(c):
+            if c.op == 'fcmp' and c.attr in ('ord', 'uno'): return c.attr == 'ord'
+            if c.op == 'fcmp' and c.attr in ('olt', 'ole') and any(z.op == 'const' and T.const_value(z) == 0 for z in c.args):
+                zi = 0 if (c.args[0].op == 'const' and T.const_value(c.args[0]) == 0) else 1
+                try: rt = ctx.rat(c.args[1 - zi])
+                except P.NotPoly: return None
+                if ctx.requal(rt, (D_, ONE_)): return zi == 0          # the cell: D > 0
+                odd.append(P.show_rat(rt, ctx)[:120])
+            return None
+        odd = []
+        try:
+            cases = list(PC.generic_cases(outs[:2], ctx, enumerate_cond=lambda c: False, premise=premise))
+        except PC.Undecided:
+            if odd:
+                rep.ob(oid, 'R17.roots', VIOLATED, 'the branch is selected by the sign of %s, which is not the discriminant (p/3)^3 + (q/2)^2 of the cubic' % odd[0], where)
+                raise _Done()
+            raise
+        if len(cases) != 1: raise PC.Undecided('%d paths on the cell D > 0' % len(cases))
+        asg, res = cases[0]
+        if not (res[0].op == 'const' and res[0].attr[1] == 1):
+            rep.ob(oid, 'R17.roots', VIOLATED, 'on the cell D > 0 the number of roots reported is %s, expected 1' % T.show(res[0], 2), where)
+        else:
+            x = ctx.rat(res[1])
+            val = ctx.radd(ctx.radd(ctx.rmul(ctx.rmul(x, x), x), ctx.rmul((R_, ONE_), ctx.rmul(x, x))), ctx.radd(ctx.rmul((S_, ONE_), x), (T_, ONE_)))
+            ok = ctx.rzero(val)
+            rep.ob(oid, 'R17.roots', HOLDS if ok else VIOLATED, 'the value returned satisfies x^3 + r x^2 + s x + t = 0 (W^3 = sgn*(-q/2 + sqrt D), sqrt(D)^2 = D)' if ok else 'on the cell D > 0 the value returned is not a root: x^3 + r x^2 + s x + t = %s' % P.show_rat(val, ctx)[:160], where)
+    except _Done:
+        pass
+    except (P.NotPoly, PC.Undecided, vg.Unsupported, OverflowError) as e:
+        rep.ob(oid, 'R17.roots', UNDECIDED, str(e)[:300], where)
+    # ---------------------------------------------------------------- D < 0
+    oid = 'solveNormalizedCubic#three-real-roots'
+    try:
+        ctx = P.Ctx(); ctx.cancel = True
+        rho, cph, sph = (T.inp('q#' + nm, 0, 8, 'double') for nm in ('rho', 'cosphi', 'sinphi'))
+        kr, krho, kc, ks = ctx.key(r_in), ctx.key(rho), ctx.key(cph), ctx.key(sph)
+        for k in (krho, kc, ks): ctx.positive.add(k)
+        R_, RHO, C_, S1 = P.patom(kr), P.patom(krho), P.patom(kc), P.patom(ks)
+        ctx.rules[ks] = P.psub(P.pconst(1), P.ppow(C_, 2))
+        cos3 = P.psub(P.pscale(P.ppow(C_, 3), 4), P.pscale(C_, 3)); K = ctx.reduce(P.pmul(S1, P.psub(P.pscale(P.ppow(C_, 2), 4), P.pconst(1))))     # sin(3 phi) > 0
+        p_ = P.pscale(P.ppow(RHO, 2), -3); q_ = P.pscale(P.pmul(P.ppow(RHO, 3), cos3), -2)
+        s_poly = P.padd(p_, P.pscale(P.ppow(R_, 2), THIRD))
+        t_poly = P.padd(P.padd(q_, P.pscale(P.ppow(R_, 3), Fraction(-2, 27))), P.pscale(P.pmul(R_, s_poly), THIRD))
+        ctx.lin[ctx.key(s_in)] = s_poly; ctx.lin[ctx.key(t_in)] = t_poly
+        SQ3 = ctx.sqrt_poly(P.pconst(3))
+        LOGRHO = P.patom(ctx.key(T.inp('q#logrho', 0, 8, 'double'))); PHI = P.patom(ctx.key(T.inp('q#phi', 0, 8, 'double')))
+        r3K = (ctx.reduce(P.pmul(P.ppow(RHO, 3), K)), ONE_); r3c = (ctx.reduce(P.pmul(P.ppow(RHO, 3), cos3)), ONE_)
+        def extra(call, a):
+            if call.attr == 'csqrt':
+                if not ctx.rzero(a[1]): raise P.NotPoly('csqrt of a non-real argument')
+                if ctx.requal(a[0], neg_(ctx.rmul(r3K, r3K))): return (({}, ONE_), r3K)       # sqrt of the negative real -(rho^3 sin 3phi)^2
+                raise P.NotPoly('csqrt argument is not D')
+            if call.attr == 'clog':
+                if ctx.requal(a[0], r3c) and ctx.requal(a[1], r3K): return ((P.pscale(LOGRHO, 3), ONE_), (P.pscale(PHI, 3), ONE_))   # rho^3 e^(3 i phi), 0 < 3 phi < pi
+                raise P.NotPoly('clog argument is not rho^3 e^(3 i phi)')
+            return None
+        cstruct = _complex_models(ctx, extra)
+        orig_rat = ctx._rat; orig_call = ctx.call
+        def _rat(n):
+            if n.op == 'extractvalue' and n.args[0].op == 'call': return cstruct(n.args[0])[n.attr[0]]
+            if n.op == 'const' and near(n, 1 / 3.0): return (P.pconst(THIRD), ONE_)
+            if n.op == 'const' and near(n, 3 ** 0.5): return SQ3
+            return orig_rat(n)
+        def call(n):
+            if n.attr == 'exp':
+                a = ctx.rat(n.args[0])
+                if ctx.requal(a, (LOGRHO, ONE_)): return (RHO, ONE_)
+                raise P.NotPoly('exp of %s' % P.show_rat(a, ctx)[:60])
+            if n.attr in ('cos', 'sin'):
+                a = ctx.rat(n.args[0])
+                if ctx.requal(a, (PHI, ONE_)): return (C_, ONE_) if n.attr == 'cos' else (S1, ONE_)
+                raise P.NotPoly('%s of %s' % (n.attr, P.show_rat(a, ctx)[:60]))
+            return orig_call(n)
+        ctx._rat = _rat; ctx.call = call
+        def premise(c):
+            if c.op == 'fcmp' and c.attr in ('ord', 'uno'): return c.attr == 'ord'
+            if c.op == 'fcmp' and c.attr in ('olt', 'ole') and any(z.op == 'const' and T.const_value(z) == 0 for z in c.args):
+                zi = 0 if (c.args[0].op == 'const' and T.const_value(c.args[0]) == 0) else 1
+                try: rt = ctx.rat(c.args[1 - zi])
+                except P.NotPoly: return None
+                if ctx.rzero(rt): return c.attr == 'ole'
+                for cand, positive in ((neg_(ctx.rmul(r3K, r3K)), False), (r3K, True)):
+                    if ctx.requal(rt, cand): return positive if zi == 0 else (not positive)
+            return None
+        cases = list(PC.generic_cases(outs, ctx, enumerate_cond=lambda c: False, premise=premise))
+        if len(cases) != 1: raise PC.Undecided('%d paths on the cell D < 0' % len(cases))
+        asg, res = cases[0]
+        if not (res[0].op == 'const' and res[0].attr[1] == 3):
+            rep.ob(oid, 'R17.roots', VIOLATED, 'on the cell D < 0 the number of roots reported is %s, expected 3' % T.show(res[0], 2), where)
+        else:
+            shift = (P.pscale(R_, THIRD), ONE_)
+            y = [ctx.radd(ctx.rat(z), shift) for z in res[1:4]]
+            e1 = ctx.radd(ctx.radd(y[0], y[1]), y[2])
+            e2 = ctx.radd(ctx.radd(ctx.rmul(y[0], y[1]), ctx.rmul(y[1], y[2])), ctx.rmul(y[0], y[2]))
+            e3 = ctx.rmul(ctx.rmul(y[0], y[1]), y[2])
+            bad = None
+            if not ctx.rzero(e1): bad = 'their sum (after the shift by r/3) is %s, expected 0' % P.show_rat(e1, ctx)[:100]
+            elif not ctx.requal(e2, (ctx.reduce(p_), ONE_)): bad = 'the sum of their pairwise products is %s, expected p = -3 rho^2' % P.show_rat(e2, ctx)[:100]
+            elif not ctx.requal(e3, neg_((ctx.reduce(q_), ONE_))): bad = 'their product is %s, expected -q = 2 rho^3 cos 3phi' % P.show_rat(e3, ctx)[:100]
+            rep.ob(oid, 'R17.roots', VIOLATED if bad else HOLDS, ('on the cell D < 0 the three values returned are not the three roots: ' + bad) if bad else 'the three values have the elementary symmetric functions (0, p, -q) of the depressed cubic: they are its three roots', where)
+    except (P.NotPoly, PC.Undecided, vg.Unsupported, OverflowError) as e:
+        rep.ob(oid, 'R17.roots', UNDECIDED, str(e)[:300], where)
 
 def check_roots(rep, ws):
     tu = TU('c17_roots', header=HDR)
